@@ -258,6 +258,44 @@ func tourFcCheckThenAct(t *rapid.T) *Case {
 	return c
 }
 
+// tourFcOverlappingUpdates: two or three UpdateJustified calls with DIFFERENT checkpoints overlap (and readers
+// of the justified checkpoint beside them). In every sequential order the newest checkpoint is the one that
+// stands at the end (an older update after a newer one is a no-op); an update that validates "is this newer?"
+// under one lock acquisition and applies under another lets the older one win.
+func tourFcOverlappingUpdates(t *rapid.T) *Case {
+	bal := []uint64{1, 2, 3, 1}
+	b := fcsim.NewB(t, "ok", 0, bal)
+	b.Block(1, 2, 1, 0, 0).Block(2, 3, 4, 0, 0).Block(3, 4, 5, 1, 0).Block(4, 6, 8, 1, 0).Block(6, 7, 9, 2, 0).Block(7, 8, 12, 2, 0).Block(8, 9, 13, 3, 0).
+		Att(0, 4, 5).Att(1, 7, 9).Att(2, 9, 13).Head()
+	fc := b.Case()
+	c := &Case{Comp: "fc", Size: "small", FcCfg: &fc.Cfg, Note: "tour:overlapping-updates"}
+	for i := range fc.Ops {
+		o := fc.Ops[i]
+		c.Setup = append(c.Setup, Op{K: o.K, Fc: &o})
+	}
+	mk := func(o fcsim.Op) Op { return Op{K: o.K, Fc: &o} }
+	fin := fcsim.Cp{R: 1, E: 0}
+	j1, j2, j3 := fcsim.Cp{R: 3, E: 1}, fcsim.Cp{R: 6, E: 2}, fcsim.Cp{R: 8, E: 3}
+	u1 := mk(fcsim.Op{K: fcsim.KUpd, T: 4, J: &j1, F: &fin})
+	u2 := mk(fcsim.Op{K: fcsim.KUpd, T: 7, J: &j2, F: &fin})
+	u3 := mk(fcsim.Op{K: fcsim.KUpd, T: 9, J: &j3, F: &fin})
+	just := Op{K: kJustified, Fc: &fcsim.Op{K: kJustified}}
+	head := mk(fcsim.Op{K: fcsim.KHead})
+	switch uni(t, 4, "shape") {
+	case 0:
+		c.Threads = [][]Op{{u1}, {u2}}
+	case 1:
+		c.Threads = [][]Op{{u1, just}, {u2, head}}
+	case 2:
+		c.Threads = [][]Op{{u2}, {u3}, {just}}
+	default:
+		c.Threads = [][]Op{{u1}, {u2}, {u3}}
+	}
+	c.Sched = genSched(t, len(c.Threads))
+	c.Sched.SlowGraph = []int{2, 3, 3}[uni(t, 3, "slow")]
+	return c
+}
+
 func genPk(t *rapid.T, size string) *Case {
 	per := genShape(t, size)
 	c := &Case{Comp: "pubkey", Size: size, Empty: uni(t, 4, "empty") == 0}
@@ -930,6 +968,25 @@ func TestCheck(t *testing.T) {
 				if i == 0 {
 					r.Eval(1)
 					r.Hit("fc/tour:check-then-act")
+				} else {
+					r.Class("repeat-executions")
+				}
+				if f != nil {
+					return c, f
+				}
+			}
+			return c, nil
+		})
+		r.Mandatory("fc/tour:overlapping-updates")
+		r.Search(t, "fc/tour:overlapping-updates", 91, r.N(48, 400), func(rt *rapid.T) (any, *report.Failure) {
+			c := tourFcOverlappingUpdates(rt)
+			for i := 0; i < 6; i++ {
+				r.Inflight(c)
+				f := x.runOnce(c, i == 0)
+				r.ClearInflight()
+				if i == 0 {
+					r.Eval(1)
+					r.Hit("fc/tour:overlapping-updates")
 				} else {
 					r.Class("repeat-executions")
 				}
